@@ -24,7 +24,7 @@ ActualEnd(o) ==
       [] OTHER                    -> [k |-> "unknown", n |-> 0]
 
 R(o) == [status |-> o.status, exit |-> o.exit, errlen |-> o.errlen]
-ChildLimit(o) == o.runner = "ptrace" /\ o.child = "killed" /\ o.cn \in {SIGXCPU, SIGXFSZ}
+ChildLimit(o) == o.runner = "ptrace" /\ o.child \in {"killed", "orphankilled"} /\ o.cn \in {SIGXCPU, SIGXFSZ}
 ImplExit(o) ==
   LET s == SignalOf(o.kind, o.n) IN
   IF o.runner = "ptrace" /\ StopsFirst(o.kind, s) /\ s \in {SIGXCPU, SIGXFSZ} THEN 0 ELSE s
